@@ -34,6 +34,13 @@ def check(prop, tier, only):
         for s in range(gshards):
             jobs.append(checks.J("h_joint_x", cfg, f"--mode grow --part {s} --of {gshards} --depth {gdepth}",
                                  name=f"joint/grow/shard{s}of{gshards}/depth{gdepth}[{cfg}]"))
+    # container copy / move assignment between the vector members of TWO joint objects, growth, reset of either object
+    for cfg in cfgs:
+        cdepth = 5 if quick else 6
+        cshards = 2 if quick else 12
+        for s in range(cshards):
+            jobs.append(checks.J("h_joint_x", cfg, f"--mode cross --part {s} --of {cshards} --depth {cdepth}",
+                                 name=f"joint/cross-object-assignment/shard{s}of{cshards}/depth{cdepth}[{cfg}]"))
     # every way a joint_ptr lets go of its object, for joint types that never touch their joint memory as well, compiled with -O2
     # (the harness's ledger keeps the block address from escaping: found D28, reset() reading the destroyed object)
     for cfg in cfgs:
@@ -56,7 +63,11 @@ def check(prop, tier, only):
             "destroyed exactly once, no destructor on storage without a live element, the block released once with its size; "
             "and all histories (depth 6/7) of vector growth 1,2,4,8,16 / shrink_to_fit / joint_allocator::allocate_node of "
             "1..24 bytes / deallocate_node of any live raw node / joint_array on ONE object's joint memory must keep all live "
-            "pieces inside the block, aligned, pairwise disjoint and their contents intact.")
+            "pieces inside the block, aligned, pairwise disjoint and their contents intact. Cross-object: all histories (depth "
+            "5/6) of X.v = std::move(Y.v) / X.v = Y.v in both directions between the vector members of TWO joint objects (targets "
+            "with and without room), growth and reset of either object: every buffer lies in ITS object's block, "
+            "get_allocator() of every container still refers to its own object's joint memory, an assignment that does not fit "
+            "throws, contents intact after the other object is released.")
     assumptions = [
         "x86-64, libstdc++: which requests a vector<_, joint_allocator> makes (none for an empty buffer, exactly n elements "
         "for reserve(n) / vector(n, alloc) / copy or move with an unequal allocator) is part of the reference model",
